@@ -18,6 +18,9 @@ systematically enumerated set of inputs.
    BootstrapTrace.tla; every group (input, opts) in which two stages or two
    environments disagree is rejected by TLC.  Doctored groups appended to the log
    are the sensitivity control: TLC must reject exactly those.
+Fifth round: Bootstrap.tla carries the build context of a stage (stage 1: the reference compiler's headers and predefined
+macros; stages 2, 3: the bundled include/ and chibicc's own) and the corpus has the `vocab` family: every identifier-shaped
+string of any stage binary (predefined macros, keywords, builtins ...) shown to the preprocessor of each stage.
 Corpus (written into scratch at run time, never committed): chibicc's own *.c,
 test/*.c, aggregates of the C08 layout generator, the C13 seed programs
 (valid and invalid) and token-level edits of them, C01 expression vectors.
@@ -163,6 +166,29 @@ def lim_files():
     return out
 
 
+IDENT_Z = re.compile(rb"(?<![A-Za-z0-9_$])([A-Za-z_][A-Za-z0-9_]{1,48})\x00")
+TIME_NAMES = {"__DATE__", "__TIME__", "__TIMESTAMP__"}
+
+
+def vocab_files(bins, per=48):
+    """the compiler's own vocabulary (strengthening after seeded change C12-8): every identifier-shaped, NUL-terminated string in
+    any of the stage binaries - the names the compiler knows without the input having declared them: predefined macros, keywords,
+    builtins, attribute / pragma names (and symbol names, which are harmless) - each shown to the preprocessor as `"N" N` (the name
+    and what it expands to) and inside `#ifdef N`.  A name that only one stage knows (an `#ifdef __GNUC__` branch of the sources)
+    or that stages define differently (a value taken from the <float.h> the stage was compiled against) shows as a difference of
+    the -E output.  Closed domain: fixed by the tree; the union over the three binaries, so a name only one stage has is in it.
+    __DATE__ / __TIME__ / __TIMESTAMP__ are exempt by the property's text.  -> [(name, bytes)], `per` names per file."""
+    names = set()
+    for b in bins:
+        names |= {m.group(1).decode() for m in IDENT_Z.finditer(open(b, "rb").read())}
+    names = sorted(names - TIME_NAMES)
+    out = []
+    for j in range(0, len(names), per):
+        body = "".join('"%s" %s\n#ifdef %s\n"%s is defined"\n#endif\n' % (n, n, n, n) for n in names[j:j + per])
+        out.append(("vocab/%04d-%s" % (j // per, names[j]), body.encode()))
+    return out
+
+
 def expr_files(ctx, nfiles):
     """C01 vectors (ExprGen.tla, a thin slice of its closed domain) as batched programs; [] if unavailable."""
     try:
@@ -199,7 +225,7 @@ def seed_files(ctx, n_edits):
     return out
 
 
-def make_corpus(ctx, tree, exprs):
+def make_corpus(ctx, tree, exprs, bins=None):
     """-> list of dict(name, path, flags, cls).  The domain is closed: the lists below are fixed by
     the tree and by constants; the quick tier takes a VERIF_SEED-selected subsample of the generated part."""
     q, d = ctx.quick, ctx.tmp("corpus")
@@ -239,6 +265,15 @@ def make_corpus(ctx, tree, exprs):
         open(p, "wb").write(data)
         add(name, p, [], name.split("/")[0])
         items[-1]["only"] = ["-S", "-E"]          # tiny one-construct files: two option sets are enough
+    if bins:          # the vocabulary family: all of it in every tier (a few dozen files under -E)
+        voc = vocab_files(bins)
+        if len(voc) < 5:
+            raise Infra("only %d vocabulary files: the stage binaries carry no strings?" % len(voc))
+        for name, data in voc:
+            p = "%s/%s.c" % (d, re.sub(r"[^A-Za-z0-9_.~-]", "_", name))
+            open(p, "wb").write(data)
+            add(name, p, [], "vocab")
+            items[-1]["only"] = ["-E"]
     ctx.cov["corpus"] = dict(total=len(items), excluded_date_time=skipped,
                              by_class={c: len([1 for x in items if x["cls"] == c]) for c in sorted(set(x["cls"] for x in items))})
     return items
@@ -550,6 +585,13 @@ def model_check(ctx, errors):
             r = ctx.tlc("boot", "Bootstrap", "Bootstrap_ctl_%s.cfg" % p, workers=1, count=False)
             if r.ok:
                 raise Infra("sensitivity control failed: TLC accepts arbitrary stage behaviours under %s" % p)
+        # a source text whose meaning depends on the context it is compiled in (host headers vs the bundled ones): stage 1 differs from
+        # stages 2 = 3.  StageAgree must be violated, and the stage2-vs-stage3 comparisons alone must NOT be (that is why the
+        # corpus has to reach the context-dependent parts and compare with stage 1)
+        r = ctx.tlc("boot", "Bootstrap", "Bootstrap_ctl_CtxDep.cfg", workers=1, count=False)
+        if r.ok:
+            raise Infra("sensitivity control failed: TLC accepts context-dependent sources under StageAgree")
+        ctx.tlc_expect_ok("boot", "Bootstrap", "Bootstrap_ctl_CtxDep_self.cfg", "context-dependent sources break the stage-2 = stage-3 comparisons in the model (they should only break the comparison with stage 1)", workers=2)
     except BaseException as e:
         errors.append(e)
 
@@ -597,7 +639,7 @@ def run(ctx):
                    case=dict(kind="build", stage=3, src=diff[0]))
     th2.join()
     runner = Runner(ctx, tree)
-    items = make_corpus(ctx, tree, exprs)
+    items = make_corpus(ctx, tree, exprs, bins=[tree + "/chibicc", tree + "/stage2/chibicc", tree + "/stage3/chibicc"])
     ctx.phase("corpus written (%d inputs)" % len(items))
     groups = runner.groups(items, "corpus")
     bad_build = judge(ctx, runner, head, groups, "corpus")
@@ -633,6 +675,8 @@ def replay(ctx, path):
     p = "%s/%s.c" % (d, re.sub(r"[^A-Za-z0-9_.~-]", "_", c["name"]))
     if c["cls"] in ("lex", "lim"):
         open(p, "wb").write(dict(lex_files() + lim_files())[c["name"]])
+    elif c["cls"] == "vocab":
+        open(p, "wb").write(c["text"].encode())
     elif c["cls"] == "boot":
         p = os.path.join(vt.VERIF, "seeds", c["name"])
     elif c["cls"] in ("own", "test"):
